@@ -375,6 +375,104 @@ def run_assets(chk, n):
         shutil.rmtree(d, ignore_errors=True)
 
 
+class SharedTask:
+    """one render of an already compiled Template object that other tasks render too, each with a Context of its own"""
+
+    def __init__(self, tpl, ctxvals):
+        self.tpl, self.ctxvals = tpl, ctxvals
+
+    def __call__(self):
+        from django.template import Context
+        return str(self.tpl.render(Context(dict(self.ctxvals))))
+
+
+def run_shared_template(chk, n_programs, n_sched):
+    """Threads of a server render the *same compiled Template* (Django caches compiled templates) with a Context each:
+    two or three tasks share one Template object — hence its {% component %} / {% slot %} / {% fill %} nodes — and differ
+    in the values of the page variables; pre-emption at every line of component.py, slots.py and perfutil/component.py.
+    Every task must give what it gives alone (seeded/C07-4: state kept on the shared node).  Provider-free programs and
+    an empty template cache keep the listed findings out of this stream."""
+    from django.template import Template
+    import django_components.cache as DC
+    gated = ("django_components/component.py", "django_components/slots.py", "perfutil/component.py")
+    prof = dict(PROFILE, w_provide=0, w_inject=0, depth=2, w_slot=4, p_named_fill=0.7)
+    found = 0
+    for i in range(n_programs * 20):
+        if found >= n_programs:
+            break
+        r = core.rng(PROP, "shared", i)
+        isolated = r.random() < 0.7
+        p = tplgen.Gen(core.rng(PROP, "shared-prog", i), prof).program(isolated=isolated)
+        if i % 2 == 0:
+            # directed: fill content on the page that prints page variables (what the instance's outer context decides)
+            T, V, L = tplgen.lit, tplgen.var, (lambda x: {"t": "text", "s": x})
+            show = [L("[")] + [{"t": "out", "e": V(n)} for n in ("a", "b", "c")] + [L("]")]
+            slot = r.choice(tplgen.SLOTS)
+            c0 = {"name": "c0", "data": [["k", {"kwarg": "k"}]],
+                  "template": [L("("), {"t": "out", "e": V("k")},
+                               {"t": "slot", "name": T(slot), "default": r.random() < 0.4, "required": False, "data": [], "body": [L("D")]}, L(")")]}
+            body = [{"t": "fill", "name": T(slot), "data": None, "dflt": None, "body": show}] if r.random() < 0.6 else show
+            tag = {"t": "comp", "name": "c0", "kwargs": [["k", V("a")]], "only": (not isolated) and r.random() < 0.5, "dyn": False, "body": body}
+            page = [tag] if r.random() < 0.5 else [{"t": "for", "x": "u", "e": V("xs"), "body": [tag, L("|")]}]
+            p = dict(p, lib=[c0], entry={"page": page},
+                     ctx=[["a", tplgen.sval("A")], ["b", tplgen.sval("B")], ["c", tplgen.sval("C")], ["xs", {"l": [tplgen.sval("x"), tplgen.sval("y")]}]])
+        n_tasks = 2 if i % 3 else 3
+        base = {k: tplgen.pyval(v) for k, v in p["ctx"]}
+        ctxs = []
+        for t in range(n_tasks):
+            c = {k: ((v + "~%d" % t) if isinstance(v, str) and t else ([x + "~%d" % t for x in v] if isinstance(v, list) and t and k not in ("sl", "one") else v))
+                 for k, v in base.items()}
+            ctxs.append(c)
+        DC.template_cache = None
+        tplgen.patch_ids()
+        tplgen.clear_census()
+        tplgen.set_mode(isolated)
+        rec = tplgen.Recorder(None, cap=None)
+        built = tplgen.Built(p, rec)
+        try:
+            try:
+                tpl = Template(tplgen.p_nodes(p["entry"]["page"]))
+            except Exception:  # noqa
+                continue
+            expected = []
+            for c in ctxs:
+                try:
+                    with core.time_limit(20.0):
+                        expected.append(outcome(("ok", SharedTask(tpl, c)()), built))
+                except Exception as e:  # noqa
+                    expected.append(outcome(("err", e), built))
+                tplgen.clear_census()
+            if any(o.startswith("ERR") or o == "STUCK" for o in expected) or len(set(expected)) == 1:
+                continue              # only healthy tasks whose outputs differ can show a mix-up
+            found += 1
+            for j in range(n_sched):
+                rr = core.rng(PROP, "shared-sched-%d" % i, j)
+                tplgen._counter[0] = 0
+                tplgen.clear_census()
+                s = sched.Scheduler([SharedTask(tpl, c) for c in ctxs], gated, sched.random_priorities(rr, rr.choice([0.02, 0.1, 0.4])))
+                s.turn = rr.randrange(n_tasks)
+                results = s.run()
+                outs = [outcome(x, built) if x is not None else "STUCK" for x in results]
+                if s.stuck or "STUCK" in outs:
+                    chk.count("shared-template/stuck", 1)
+                    continue
+                chk.count("shared-template", 1, validated=n_tasks)
+                chk.nontrivial(("shared-template", i, j))
+                residue = tplgen.census()
+                bad = [t for t in range(n_tasks) if outs[t] != expected[t]]
+                if bad or residue != ZERO:
+                    chk.violation("impl-violates-spec", "shared-template",
+                                  {"program": p, "isolated": isolated, "contexts": ctxs, "schedule": "random-%d" % j, "switch_trace": s.trace[:60]},
+                                  impl={"outcomes": outs, "alone": expected, "residue": residue},
+                                  spec="every render gives the output it gives alone; nothing is left in the registries",
+                                  note="threads %s rendering one compiled Template with their own Context give another output than alone; switches: %s || " % (
+                                      bad, s.trace[:10]) + " || ".join(rc.describe(p)))
+                    return
+        finally:
+            built.close()
+            tplgen.clear_census()
+
+
 def run(tier: str) -> int:
     chk = core.Check(PROP, tier, THEOREMS, "DESIGN.md §8 C07")
     chk.build_and_audit()
@@ -389,6 +487,7 @@ def run(tier: str) -> int:
         run_lru(chk, 12)
         run_lru(chk, 25, atomic=True)
         run_assets(chk, 4)
+        run_shared_template(chk, 10, 8)
     else:
         explore(chk, "provider-free", 120, [1, 3, 10, 25, 50, 80, 150, 300], 30, failing=False)
         explore(chk, "healthy", 120, [1, 3, 10, 25, 50, 80, 150, 300], 30, failing=False)
@@ -398,6 +497,7 @@ def run(tier: str) -> int:
         run_lru(chk, 300)
         run_lru(chk, 600, atomic=True)
         run_assets(chk, 60)
+        run_shared_template(chk, 100, 20)
     chk.assumptions += [
         "pre-emption points: every line of the gated files; pre-emption inside a line, C-level dict atomicity and "
         "first-access class initialisation inside CPython are not exhibited",
